@@ -858,7 +858,7 @@ Definition h_zscan (args : list bytes) : hres :=
 (* ============================== server commands =============================== *)
 Definition h_dbsize (args : list bytes) : hres :=
   HBody (fun now d => ret [WInt (Z.of_nat (length (idx d)))] d).
-Definition h_flushdb (args : list bytes) : hres := HBody (fun now d => ret [WOK] (clear d)).
+Definition h_flushdb (args : list bytes) : hres := HBody (fun now d => ret [WOK] (api_clear d)).
 Definition h_save (args : list bytes) : hres := HBody (fun now d => ret [WOK] (flush now d)).
 Definition h_ping (args : list bytes) : hres :=
   HBody (fun now d => ret [WBulk (match args with a :: _ => a | [] => s_PONG end)] d).
